@@ -36,10 +36,11 @@ inductive Stm (σ β : Type) where
   | set (f : σ → σ)
   /-- `destination.NextWithContext / ErrorWithContext / CompleteWithContext`; the arguments may read the locals -/
   | emit (n : σ → Notif β)
-  /-- `X.SubscribeWithContext(c, NewObserverWithContext(...))` for source number `k` -/
-  | sub (k : Nat) (c : Ctx)
+  /-- `X.SubscribeWithContext(c, NewObserverWithContext(...))` for source number `k` (a parameter of the
+      operator, or — higher-order operators — the source a value of the outer observable stands for) -/
+  | sub (k : σ → Nat) (c : σ → Ctx)
   /-- `subscriptions.AddUnsubscribable(<the subscription of source k>)` -/
-  | add (L : CompLens σ) (k : Nat)
+  | add (L : CompLens σ) (k : σ → Nat)
   | ite (c : σ → Bool) (t e : Stm σ β)
   | seq (a b : Stm σ β)
 
@@ -50,8 +51,8 @@ def single : Stm σ β → Phase σ β
   | .skip => fun s => (s, [])
   | .set f => fun s => (f s, [])
   | .emit n => fun s => (s, [.emit (n s)])
-  | .sub k c => fun s => (s, [.sub k c])
-  | .add L k => fun s => (L.put s ((L.get s).add (β := β) k).1, ((L.get s).add k).2)
+  | .sub k c => fun s => (s, [.sub (k s) (c s)])
+  | .add L k => fun s => (L.put s ((L.get s).add (β := β) (k s)).1, ((L.get s).add (k s)).2)
   | .ite c t e => fun s => if c s then single t s else single e s
   | .seq a b => fun s => ((single b (single a s).1).1, (single a s).2 ++ (single b (single a s).1).2)
 
